@@ -36,7 +36,7 @@ REGISTRY = {
         trusted=["backend contract (public extension API): every submitted batch runs at most once, its callback is invoked at most once with the results in item order or an error",
                  "monitor rule: state written only under Parallel._lock with the lock invariant re-established before each release satisfies it in every interleaving (meta-theorem)",
                  "queue.Queue FIFO, collections.deque, itertools.islice semantics", "function summaries used between the four parts of the pack mirror contracts proved in another part (link by inspection)"],
-        assumptions=["ordered mode for the in-order claims", "fixed batch size for the look-ahead bound", "BatchedCalls.__call__ / _get_sequential_output are shape-bounded (3 items)"],
+        assumptions=["ordered mode for the in-order claims", "batch_size='auto' (variant dispatch_one_batch[auto-batch-size]): the look-ahead bound is stated with the largest batch size any thread has computed so far (ghost BSMAX, compute_batch_size >= 1 from its part-1 contract)", "BatchedCalls.__call__ / _get_sequential_output are shape-bounded (3 items)"],
         undecided_clauses=["'as soon as' in wall-clock terms (10 ms polling) and garbage-collection timing"],
     ),
     "C09": dict(
@@ -48,8 +48,8 @@ REGISTRY = {
         trusted=["backend contract (public extension API): every submitted batch runs at most once, its callback is invoked at most once with the results in item order or an error",
                  "monitor rule: state written only under Parallel._lock with the lock invariant re-established before each release satisfies it in every interleaving (meta-theorem)",
                  "queue.Queue FIFO, collections.deque, itertools.islice semantics", "function summaries used between the four parts of the pack mirror contracts proved in another part (link by inspection)"],
-        assumptions=["ordered mode for the in-order claims", "fixed batch size for the look-ahead bound", "BatchedCalls.__call__ / _get_sequential_output are shape-bounded (3 items)"],
-        undecided_clauses=["once a task has failed no further items are taken: the abort flag is read outside the lock in dispatch_one_batch, so one more slice may be pulled by a callback that already passed the test - neither provable at lock granularity nor refutable without a scheduler (undecided clause, not a finding)", "batch_size='auto': the look-ahead bound is proved for a fixed batch size"],
+        assumptions=["ordered mode for the in-order claims", "batch_size='auto' (variant dispatch_one_batch[auto-batch-size]): the look-ahead bound is stated with the largest batch size any thread has computed so far (ghost BSMAX, compute_batch_size >= 1 from its part-1 contract)", "BatchedCalls.__call__ / _get_sequential_output are shape-bounded (3 items)"],
+        undecided_clauses=["once a task has failed no further items are taken: the abort flag is read outside the lock in dispatch_one_batch, so one more slice may be pulled by a callback that already passed the test - neither provable at lock granularity nor refutable without a scheduler (undecided clause, not a finding)"],
     ),
     "C04": dict(
         packs=["par1", "par2", "par3", "par4"], level="proof", lemmas=["c04_error_delivery"],
@@ -60,7 +60,7 @@ REGISTRY = {
         trusted=["backend contract (public extension API): every submitted batch runs at most once, its callback is invoked at most once with the results in item order or an error",
                  "monitor rule: state written only under Parallel._lock with the lock invariant re-established before each release satisfies it in every interleaving (meta-theorem)",
                  "queue.Queue FIFO, collections.deque, itertools.islice semantics", "function summaries used between the four parts of the pack mirror contracts proved in another part (link by inspection)"],
-        assumptions=["ordered mode for the in-order claims", "fixed batch size for the look-ahead bound", "BatchedCalls.__call__ / _get_sequential_output are shape-bounded (3 items)"],
+        assumptions=["ordered mode for the in-order claims", "batch_size='auto' (variant dispatch_one_batch[auto-batch-size]): the look-ahead bound is stated with the largest batch size any thread has computed so far (ghost BSMAX, compute_batch_size >= 1 from its part-1 contract)", "BatchedCalls.__call__ / _get_sequential_output are shape-bounded (3 items)"],
         undecided_clauses=["the call always terminates (liveness over threads/processes) is not decided"],
     ),
     "C01": dict(
@@ -72,7 +72,7 @@ REGISTRY = {
         trusted=["backend contract (public extension API): every submitted batch runs at most once, its callback is invoked at most once with the results in item order or an error",
                  "monitor rule: state written only under Parallel._lock with the lock invariant re-established before each release satisfies it in every interleaving (meta-theorem)",
                  "queue.Queue FIFO, collections.deque, itertools.islice semantics", "function summaries used between the four parts of the pack mirror contracts proved in another part (link by inspection)"],
-        assumptions=["ordered mode for the in-order claims", "fixed batch size for the look-ahead bound", "BatchedCalls.__call__ / _get_sequential_output are shape-bounded (3 items)"],
+        assumptions=["ordered mode for the in-order claims", "batch_size='auto' (variant dispatch_one_batch[auto-batch-size]): the look-ahead bound is stated with the largest batch size any thread has computed so far (ghost BSMAX, compute_batch_size >= 1 from its part-1 contract)", "BatchedCalls.__call__ / _get_sequential_output are shape-bounded (3 items)"],
         undecided_clauses=["fairness / termination of the retrieval loop; behaviour of third-party backends", "generator_unordered: _retrieve[unordered] proves that each finished batch is delivered exactly once, in queue order; that the queue order IS the completion order rests on _register_outcome's enqueue under the lock (part 1)"],
     ),
     "C03": dict(
